@@ -16,6 +16,7 @@ CHECKS = {
     "C10": p_session.check_C10,
     "C15": p_session.check_C15,
     "C19": p_session.check_C19,
+    "C05": p_session.check_C05,
 }
 
 
